@@ -163,6 +163,9 @@ PENDING = "check not built yet in this round (static rules planned in DESIGN.md 
 NOT_APPLICABLE = {}
 
 ENGINES = [
+    {"name": "fvfacts", "path": "tools/fvfacts", "serves_properties": ["C09", "C11", "C12", "C13", "C14"],
+     "kind_free_text": "rustc_private driver (nightly, RUSTC_WORKSPACE_WRAPPER under cargo check) dumping type-resolved MIR facts: "
+     "resolved call edges, ADT aggregate constructions, field writes, assert terminators, unsafe impls; used by the thorough tier"},
     {"name": "astdump", "path": "tools/astdump", "serves_properties": ["C%02d" % i for i in range(1, 21)],
      "kind_free_text": "syn-based parser that dumps every /repo source file as a JSON syntax tree (no evaluation)"},
     {"name": "fvlint", "path": "fv", "serves_properties": ["C%02d" % i for i in range(1, 21)],
